@@ -65,7 +65,11 @@ var c17Exceptions = []effectException{
 	{"(*tokens/type5.BatchedPrivateIssuer).TokenKeyID", "D0.tokenKey", "(*circl/group.wElt).MarshalBinaryCompress",
 		"same conflation as above for the key-id serialisation of a ristretto255 key"},
 	{"(tokens/type1.BasicPrivateIssuer).Evaluate", "G:github.com/cloudflare/circl/group.P384", "(*circl/group.wElt).MarshalBinaryCompress",
-		"the elements normalised here are the per-call request/evaluation elements (fresh); they reach the group descriptor global only because element content is summarised field-insensitively once stored in a slice; two independent issuers evaluating concurrently show no race"},
+		"the elements normalised here are the per-call request/evaluation/commitment elements (fresh); they reach the group descriptor global only because element content is summarised field-insensitively once stored in a slice; the generator (which does alias the curve's Gx,Gy) is never serialised by the DLEQ prover; two independent issuers evaluating concurrently show no race"},
+	{"(tokens/type1.BasicPrivateIssuer).Evaluate", "G:github.com/cloudflare/circl/oprf.SuiteP384", "(*circl/group.wElt).MarshalBinaryCompress",
+		"same as above, with the descriptor reached through the suite constant"},
+	{"(tokens/type5.BatchedPrivateIssuer).Evaluate", "G:github.com/cloudflare/circl/oprf.SuiteRistretto255", "(*circl/group.wElt).MarshalBinaryCompress",
+		"call-graph conflation (ristretto255 never instantiates wElt) combined with the slice summarisation above; 8 goroutines on one type-5 issuer: no race reported"},
 }
 
 func c17(p *Prog, r *Report) {
